@@ -129,6 +129,7 @@ struct State {
     /// set when the coordinator polled with nothing in flight, nothing pending and done == total:
     /// it is about to leave its loop, `run_end` must follow
     final_poll: Option<std::time::Instant>,
+    last_poll: Option<(usize, usize)>,
 }
 
 pub struct Ctl {
@@ -200,6 +201,7 @@ impl Ctl {
                 last_event: std::time::Instant::now(),
                 dropped: false,
                 final_poll: None,
+                last_poll: None,
             }),
             cv: Condvar::new(),
         })
@@ -236,6 +238,7 @@ impl Ctl {
         s.last_event = std::time::Instant::now();
         s.dropped = false;
         s.final_poll = None;
+        s.last_poll = None;
     }
 
     /// Collect what the run produced
@@ -630,7 +633,10 @@ impl Controller for Ctl {
         // loop must leave right after it; polls that keep coming in that state mean it is spinning
         s.final_poll = if Self::in_flight(&s) == 0 && Self::pending(&s) == 0 && done == total { s.final_poll.or(Some(std::time::Instant::now())) } else { None };
         // compress runs of identical polls
-        if !matches!(s.events.last(), Some(Event::Poll { done: d, total: t }) if *d == done && *t == total) {
+        // (a poll that repeats the previous one is not progress: it must not reset the quiet timer
+        // of the bounded-progress predicates, whether or not events are being recorded)
+        if s.last_poll != Some((done, total)) {
+            s.last_poll = Some((done, total));
             Self::ev(&mut s, Event::Poll { done, total });
         }
         match s.spec.clone() {
